@@ -9,7 +9,7 @@ RULE = ("histories of 1-4 add_constraint_R_zero calls on one PCBO (optionally ca
         "dict, reversed-key dict or PUBO. Penalty = exact polynomial difference after - before, checked on the full "
         "truth table over P's variables x new ancillas. Non-trivial = history containing a relation that is neither "
         "constant-true nor constant-false; distinct = digest of the history"
-        ' Also: bounds as any valid enclosure (integer or fractional widening, one-sided, lists), log_trick spelled as int / numpy bool, caller edits of its own polynomial, interleaved validity queries,, identities of two-input gates and their near misses as polynomials, bounds of 50-70 bits (slack weights read off the model, exact integers), and between two constraints refresh / update(model) / += model / deepcopy / copy.copy / copy() / copy constructor.')
+        ' Also: bounds as any valid enclosure (integer or fractional widening, one-sided, lists), log_trick spelled as int / numpy bool, caller edits of its own polynomial, interleaved validity queries,, identities of two-input gates and their near misses as polynomials, bounds of 50-70 bits (slack weights read off the model, exact integers), arguments passed positionally in the documented order, and between two constraints refresh / update(model) / += model / deepcopy / copy.copy / copy() / copy constructor.')
 TIERS = {"quick": {"shards": 8, "cases": 2500}, "thorough": {"shards": 16, "cases": 30000}}
 FLOOR_BASE = {"quick": 400, "thorough": 10000}    # case counts the floors below were calibrated for; the launcher scales them
 KIND = "bool"
@@ -19,7 +19,7 @@ def FLOORS(tier):
     q = tier == "quick"
     f = {"multi-constraint-history": 200 if q else 5000, "exactness-checks": 2000 if q else 60000,
          "is_solution_valid-checks": 10000 if q else 300000, "delta-checks": 3000 if q else 10 ** 5,
-         "ancillas:1-3": 300, "ancillas:>=4": 100, "caller-edits-its-polynomial-afterwards": 300, "interleaved-validity-checks": 1500, "bounds:widened-fractional": 150, "between-constraints:update-with-model": 40, "between-constraints:deepcopy": 40, "between-constraints:copy.copy": 40, "log_trick-spelled-as-int-or-numpy-bool": 150, "refresh-between-constraints": 150, "huge-bound:with-slack-bits": 20, "huge-bound-satisfying-rows": 50}
+         "ancillas:1-3": 300, "ancillas:>=4": 100, "caller-edits-its-polynomial-afterwards": 300, "interleaved-validity-checks": 1500, "bounds:widened-fractional": 150, "between-constraints:update-with-model": 40, "between-constraints:deepcopy": 40, "between-constraints:copy.copy": 40, "log_trick-spelled-as-int-or-numpy-bool": 150, "refresh-between-constraints": 150, "arguments-passed-positionally": 150, "huge-bound:with-slack-bits": 20, "huge-bound-satisfying-rows": 50}
     for R in C.RELS:
         for lt in ((True, False) if R != "eq" else ("n/a",)):
             f["rel:%s:log_trick=%s" % (R, lt)] = 100 if q else 3000
